@@ -1,0 +1,9 @@
+//go:build !verif
+
+// Package vhook provides scheduling yield points for the external
+// verification harness. Without the "verif" build tag every call is an
+// empty function that the compiler inlines away.
+package vhook
+
+// Yield marks a named scheduling point. It does nothing in normal builds.
+func Yield(site string) {}
